@@ -179,7 +179,8 @@ class MVContext:
         if LIB_INSTALLED['numpy']:
             if type(extent_i) is np.ndarray:
                 extent_i = extent_i.tolist()
-        return extent_i
+        # pattern structures may hand back the numpy integers they were given as base objects
+        return [int(g_i) for g_i in extent_i]
 
     def intention_i(self, object_indexes):
         """Return a common description of objects from ``object_indexes``. Pat. structures are denoted by their indexes"""
